@@ -153,7 +153,7 @@ fn run_case(w: &[&str], n: u64, ga: &Guarded, gb: &Guarded) -> String {
         "ustr_bytes", "ustr_str", "ustring_bytes", "ustring_vec", "ustring_str", "ustring_string",
         "ustring_fromstr", "const", "lit", "format", "dname", "parent", "file_name", "own",
     ];
-    const BINARY: &[&str] = &["join", "join_fmt", "find", "find_buf", "ends_with", "match", "match_str"];
+    const BINARY: &[&str] = &["join", "join_fmt", "find", "find_buf", "ends_with", "match", "match_str", "find_alias", "ends_with_alias", "match_alias"];
     if !(b.is_none() && UNARY.contains(&op) || b.is_some() && BINARY.contains(&op)) {
         return "bad-op".to_string();
     }
@@ -273,9 +273,26 @@ fn run_case(w: &[&str], n: u64, ga: &Guarded, gb: &Guarded) -> String {
         ("find_buf", Some(p)) => opt_usize(sa.find_buf(gb.put(&p))),
         ("match_str", Some(p)) => {
             let p = gb.put(&p);
-            match ascii(p) {
-                Some(s) => format!("val {}", sa.match_up_to_str(s)),
-                None => "bad-op".to_string(),
+            // any valid UTF-8 is a legal &str operand (multi-byte characters included)
+            match core::str::from_utf8(p) {
+                Ok(s) => format!("val {}", sa.match_up_to_str(s)),
+                Err(_) => "bad-op".to_string(),
+            }
+        }
+        // the second operand ALIASES the first: it is the tail of the very same buffer starting at byte `off`
+        (op2 @ ("find_alias" | "ends_with_alias" | "match_alias"), Some(offb)) => {
+            let off = offb.iter().fold(0usize, |acc, x| acc * 256 + *x as usize);
+            if off >= sa.as_slice().len() {
+                return "bad-op".to_string();
+            }
+            let sb = match UnixStr::try_from_bytes(&sa.as_slice()[off..]) {
+                Ok(s) => s,
+                Err(_) => return "reject".to_string(),
+            };
+            match op2 {
+                "find_alias" => opt_usize(sa.find(sb)),
+                "ends_with_alias" => format!("{}", sa.ends_with(sb)),
+                _ => format!("val {}", sa.match_up_to(sb)),
             }
         }
         (op2, Some(bb)) => {
